@@ -25,7 +25,7 @@ ASSUMPTIONS = ['RefGrammar is a manual transcription of prolog.g4 (EOF required 
 FOREIGN = ['#', '$', '&', '?', '"', '\\', '{', '}', '~', '^', '@', "'", '% comment without newline', '*']
 CLASS_MEMBERS = {'ATOM': ['b', 'a_B1', '_'], 'VARIABLE': ['_', 'Y', '_G1'], 'NUMERAL': ['00', '42'],
                  'STRING': ["''", "'it\\'s'", "'two words'"], 'UNOP': ['+'], 'BINOP': ['\\=', '==', '=<', '>=', '<', '\\==']}
-IDENT = re.compile(r'^[A-Za-z_][A-Za-z0-9_]*$')
+IDENT = re.compile(r'[A-Za-z_][A-Za-z0-9_]*\Z')
 
 
 def bounds(tier):
